@@ -24,6 +24,36 @@ CLAIMS = {
          "Trusted: Coq kernel; translator (values read by import / compiled dumper); CPython utf-8 codec as oracle. Modelled, not "
          "verified: bytes/int semantics, size_t wrap, C memory safety, cffi buffer passing; SSE2/SSE4.1 bodies are dead code.",
          "generated-table sweeps by vm_compute, list induction, differential runs vs CPython codec"),
+ "C18": ("5 C18",
+         "Coq theorems over an executable model of define(), _message_from_exception, _exception_from_message and the ERROR branch, "
+         "for all registries, exception values, payloads and constructor behaviours (constructors are a quantified oracle): URI "
+         "selection, payload preservation (with/without traceback forwarding), class-or-fallback, call completion, end-to-end "
+         "composition; refuted parts proved with witnesses (reserved kwarg names, own 'traceback' kwarg, read-only detail "
+         "attribute). Differential run: two real sessions back to back through real json/msgpack/cbor on both frameworks.",
+         "Trusted: Coq kernel; hand-written model tied by differential runs. Application values opaque (serializer fidelity is C03); "
+         "constructors = oracle returning an instance or raising an Exception subclass; uri.Pattern acceptance a predicate. "
+         "Known findings: reserved-kwarg-dropped, traceback-overwrites-kwarg, read-only-detail-attribute.",
+         "Coq over association-map models + vm_compute correspondence"),
+ "C20": ("5 C20",
+         "Coq theorems (partial: cryptographic strength assumed) over a model of KeyRing lookup/encode/decode and the four "
+         "payload-carrying directions through the session, with the cipher as a Section oracle satisfying aead_ok (open of a "
+         "sealed box under the paired key recovers it, anything else opens to None): exact recovery, no clear payload in the "
+         "message, URI binding, no delivery on failure, authenticity of everything delivered, longest-prefix keyring lookup; "
+         "refuted with witnesses: clear YIELD on encode failure, ERROR keyed by error URI. Differential run with real PyNaCl: "
+         "keyring layouts x directions x faults, every single-octet alteration of a ciphertext.",
+         "Trusted: Coq kernel; aead_ok (NaCl crypto_box authenticity) and json_ok are premises, not proved; the model run uses a "
+         "toy cipher proved to satisfy aead_ok; confidentiality is NaCl's; pytrie longest-prefix semantics mirrored.",
+         "Coq with oracle premises + real-crypto differential and tamper sweep"),
+ "C11": ("5 C11",
+         "Coq theorems over an executable model of the subscriber side of ApplicationSession, for all op histories and both "
+         "callback flavours: exact fan-out as an inductive dispatch relation (snapshot at arrival, subscription order, once each, "
+         "published args/kwargs + own details only, handlers deactivated mid-dispatch passed over), isolation of raising "
+         "handlers, never-after-unsubscribe, UNSUBSCRIBE iff last handler, racing events dropped, unknown id = ProtocolError. "
+         "Differential run: generated histories (re-entrant handlers, decorated objects, all payload shapes) on the real "
+         "session under Twisted and asyncio vs the model, plus an oracle recomputing deliveries from the property text.",
+         "Trusted: Coq kernel; hand-written model tied by differential runs; CPython dict/list semantics and txaio callback "
+         "ordering mirrored. Not modelled/generated: encrypted payloads, coroutine handlers, id wrap at 2^53, re-join.",
+         "invariant + inductive dispatch relation over a Gallina state machine; differential run on virtual time"),
 }
 NOT_YET = {}
 
